@@ -241,9 +241,10 @@ def gen_case(rng):
     alt0 = s["atmo"].get("alt_ft", 0.0)
     cfg = {}
     if rng.random() < 0.8:
-        cfg["cMinimumVelocity"] = rng.choice([0.0, 50.0, 300.0, 1000.0, 2000.0])
+        cfg["cMinimumVelocity"] = rng.choice([0.0, 50.0, 300.0, 1000.0, 2000.0, 900, round(rng.uniform(100, 1500), 2)])
     if rng.random() < 0.8:
-        cfg["cMaximumDrop"] = rng.choice([-15000.0, -1000.0, -50.0, -1.0, 0.0, -3000.0])
+        cfg["cMaximumDrop"] = rng.choice([-15000.0, -1000.0, -50.0, -1.0, 0.0, -3000.0, -0.9, -10.75, round(-rng.uniform(0.1, 300), 3),
+                                          -7, -250])      # whole and fractional feet, floats and ints
     if rng.random() < 0.6:
         cfg["cMinimumAltitude"] = rng.choice([alt0 - 100.0, alt0 - 5.0, alt0, 0.0, alt0 - 1000.0])
     if rng.random() < 0.1:
